@@ -1,11 +1,30 @@
 CFG = {
     "id": "C02",
-    "level_text": "WORK IN PROGRESS",
-    "level_note": "",
+    "level_text": "Proof over the same executable models as C01: after EVERY list of operations the red-black tree has a black root, "
+                  "no red node with a red child, one black height on all paths, search-tree order and size = number of keys (C02_rb); "
+                  "the AVL tree stores at every node the true height difference, which lies in {-1,0,1}, with search-tree order and exact "
+                  "size (C02_avl); the B-tree of every order m >= 3 has all leaves at one depth, between ceil(m/2)-1 and m-1 entries in every "
+                  "non-root node (root >= 1), 0 or k+1 children for k entries, entries sorted and separating the children, exact size, and "
+                  "the model never runs out of fuel or indexes out of range (C02_bt). The boolean twins evaluated on the implementation's dumps are proved equivalent "
+                  "to the invariants (C02_*_inv_b_ok); the parent-link predicate holds of every dump that is the pointer layout of a model "
+                  "tree (C02_parent_ok, C02_parent_ok_bt). Extra: height <= 2 log2(n+1) (RB), 2^(h/2) <= n+1 (AVL), levels <= log2(n+1) (B-tree). The models are tied to the code on every run: after every operation the harness dumps the REAL "
+                  "tree in pre-order through Root/Left/Right/Children/Entries/Parent and the verif accessors (colour, balance factor); Coq "
+                  "compares the dump with the model tree exactly (kind 1) and evaluates invariant twin + parent links + Size() on the dump "
+                  "alone (kind 2). Both tiers explore every reachable shape over a small key universe x every next Put/Remove.",
+    "level_note": "All clauses have a theorem. Search-tree order is stated as: the in-order walk is strictly ascending. Parent links exist only "
+                  "in dumps (the functional model has no parent field).",
+    "widen_runs": 1,
     "harness": "c01",
     "runs": [{"harness": "c01", "extra": "c02"}],
-    "theorems": [("C02.Props", ["C02_int_comparator_laws"])],
-    "trusted": [],
-    "modelled": [],
-    "assumptions": [],
+    "theorems": [("C02.Props", [
+        "C02_rb", "C02_avl", "C02_bt", "C02_rb_inv_b_ok", "C02_avl_inv_b_ok", "C02_bt_inv_b_ok", "C02_parent_ok", "C02_parent_ok_bt",
+        "C02_rb_height_log", "C02_avl_height_log", "C02_bt_height_log"])],
+    "trusted": [
+        "comparator laws are a premise (CmpLaws), proved for the int comparator used in the correspondence run",
+        "parent pointers and in-place mutation have no counterpart in the functional model: the clause 'every child's parent link points to "
+        "its actual parent' is a predicate on dumps, proved for the model's layout and evaluated on the implementation's dump",
+        "verif-tagged read-only accessors VerifColor / VerifBalance (add-only files in the repository)",
+    ],
+    "modelled": ["values are not part of a shape dump (C01 compares values)"],
+    "assumptions": ["keys are Go int in the correspondence run (theorems: any type)", "sequential use"],
 }
